@@ -52,6 +52,11 @@ type c17Hist struct {
 	// (forgotten when the row is garbage-collected: a re-created id is a new task)
 	cutoverDone map[c17Ref]string
 	rewoundBy   map[c17Ref]string // which command moved such a task back to a pre-cutover row
+	// embeddedWindow: replica-replace tasks whose embedded leader commit was seen
+	// applied and whose clear-fence step has not been seen applied since
+	embeddedWindow    map[c17Ref]bool
+	wantWindow        *c17Ref
+	sawEmbeddedWindow bool
 
 	sawCutover, sawStaleProof, sawAbortAfter bool
 	dead                                     bool
@@ -140,6 +145,42 @@ func (h *c17Hist) apply(mode c17JudgeMode, cmds ...c17Cmd) []string {
 			}
 			h.rewoundBy[ref] = by
 			h.r.Count("observe.post_cutover_task_moved_back_by."+by, 1)
+		}
+	}
+	for ref := range h.embeddedWindow {
+		q, ok := post.Tasks[ref]
+		if !ok {
+			delete(h.embeddedWindow, ref)
+			delete(h.rewoundBy, ref)
+			continue
+		}
+		closed := false
+		for i := range cmds {
+			if cmds[i].Kind == c17KClearFence && cmds[i].Task == ref && results[i] == "ok" {
+				if p, ok := pre.Tasks[ref]; ok && p != q {
+					closed = true
+				}
+			}
+		}
+		if closed {
+			delete(h.embeddedWindow, ref)
+			delete(h.rewoundBy, ref)
+			h.r.Count("embedded_window.closed_by_clear_fence", 1)
+			continue
+		}
+		if p, ok := pre.Tasks[ref]; ok && c17EmbeddedWindowRow(p) && !c17EmbeddedWindowRow(q) && q.Status != c17Aborted {
+			by := "batch"
+			if len(cmds) == 1 {
+				by = cmds[0].Kind.String()
+			}
+			h.rewoundBy[ref] = by
+			h.r.Count("observe.embedded_window_task_moved_away_by."+by, 1)
+		}
+	}
+	for i := range cmds {
+		if cmds[i].Kind == c17KCommit && results[i] == "ok" && h.embeddedWindow[cmds[i].Task] {
+			ref := cmds[i].Task
+			h.wantWindow = &ref
 		}
 	}
 	for ref, t := range post.Tasks {
@@ -577,7 +618,7 @@ func c17RunHistory(r *verifkit.Run, t *testing.T, base string, i int, steps int)
 		return
 	}
 	h := &c17Hist{r: r, rng: rng, caseIdx: i, ctx: context.Background(), sm: sm.(multiraft.BatchStateMachine), store: db.ForSlot(c17Slot),
-		now: c17T0 + int64(rng.IntN(1_000_000)), taskSnaps: map[c17Ref][]c17Task{}, metaSnaps: map[c17Chan][]c17Meta{}, rejects: map[c17Ref]int{}, cutoverDone: map[c17Ref]string{}, rewoundBy: map[c17Ref]string{}}
+		now: c17T0 + int64(rng.IntN(1_000_000)), taskSnaps: map[c17Ref][]c17Task{}, metaSnaps: map[c17Chan][]c17Meta{}, rejects: map[c17Ref]int{}, cutoverDone: map[c17Ref]string{}, rewoundBy: map[c17Ref]string{}, embeddedWindow: map[c17Ref]bool{}}
 	nch := 1 + rng.IntN(2)
 	for k := 0; k < nch; k++ {
 		h.chans = append(h.chans, c17Chan{ID: fmt.Sprintf("ch%d-%d", i, k), Type: 2})
